@@ -2332,17 +2332,19 @@ where
                     // Expand 1-bit samples to 0/255 bytes for all frames
                     let frame_pixels = (rows as usize) * (cols as usize);
                     let frame_samples = frame_pixels * (samples_per_pixel as usize);
-                    let frame_size = frame_samples / 8;
-                    let frame_size_all = frame_size * (number_of_frames as usize);
+                    // samples are packed continuously across frames,
+                    // so frames do not necessarily end on a byte boundary
+                    let samples_all = frame_samples * (number_of_frames as usize);
+                    let frame_size_all = samples_all.div_ceil(8);
 
                     let frame_data = data.get(0..frame_size_all).context(FrameOutOfRangeSnafu {
-                        frame_number: frame_size_all as u32,
+                        frame_number: number_of_frames,
                     })?;
                     // Map every bit in each byte to a separate byte of either 0 or 255
                     frame_data
                         .iter()
                         .flat_map(|&byte| (0..8).map(move |bit| ((byte >> bit) & 1) * 255))
-                        .take(frame_pixels * number_of_frames as usize)
+                        .take(samples_all)
                         .collect()
                 } else {
                     data.to_vec()
@@ -2484,29 +2486,34 @@ where
                 // Non-encoded, just return the pixel data for a single frame
                 let frame_pixels = (rows as usize) * (cols as usize);
                 let frame_samples = frame_pixels * (samples_per_pixel as usize);
-                let frame_size = if bits_allocated == 1 {
-                    frame_samples / 8
-                } else {
-                    frame_samples * (bits_allocated.div_ceil(8) as usize)
-                };
-                let frame_offset = frame_size * (frame as usize);
-
                 let data = p.to_bytes();
 
-                let frame_data = data.get(frame_offset..frame_offset + frame_size).context(
-                    FrameOutOfRangeSnafu {
-                        frame_number: frame,
-                    },
-                )?;
-
                 if bits_allocated == 1 {
+                    // samples are packed continuously across frames,
+                    // so the frame may start and end in the middle of a byte
+                    let first_bit = frame_samples * (frame as usize);
+                    let last_bit = first_bit + frame_samples;
+                    let frame_data = data.get(first_bit / 8..last_bit.div_ceil(8)).context(
+                        FrameOutOfRangeSnafu {
+                            frame_number: frame,
+                        },
+                    )?;
                     // Map every bit in each byte to a separate byte of either 0 or 255
                     frame_data
                         .iter()
                         .flat_map(|&byte| (0..8).map(move |bit| ((byte >> bit) & 1) * 255))
-                        .take(frame_pixels)
+                        .skip(first_bit % 8)
+                        .take(frame_samples)
                         .collect()
                 } else {
+                    let frame_size = frame_samples * (bits_allocated.div_ceil(8) as usize);
+                    let frame_offset = frame_size * (frame as usize);
+
+                    let frame_data = data.get(frame_offset..frame_offset + frame_size).context(
+                        FrameOutOfRangeSnafu {
+                            frame_number: frame,
+                        },
+                    )?;
                     frame_data.to_vec()
                 }
             }
